@@ -81,6 +81,27 @@ def param_programs():
         m.e2 = E(w=1000 * h.prefix.UNIT, k=1.0)(p=m.a, n=m.b)
         return m
     yield ("params/equal-values-spelled-differently", equal_spelled_differently)
+    # declaration histories: names first declared as one kind and re-declared as another, ports declared in an order that
+    # differs from the order of first mention
+    def redeclared():
+        m = h.Module(name="Redecl")
+        m.vdd = h.Signal()                 # first mentioned as a plain signal ...
+        m.k = h.Signal(width=2)
+        m.inp = h.Input()
+        m.out = h.Output()
+        m.vdd = h.Inout()                  # ... and made a port afterwards, after the other ports
+        m.k = h.Port(width=2)
+        m.t = h.Input()
+        m.t = h.Signal()                   # a port demoted to a signal
+        m.r = h.R(r=1)(p=m.inp, n=m.out)
+        m.r2 = h.R(r=1)(p=m.vdd, n=m.t)
+        m.c = h.C(c=1)(p=m.k[0], n=m.k[1])
+        top = h.Module(name="RedeclTop")
+        top.a, top.b, top.c = h.Signals(3)
+        top.kk = h.Signal(width=2)
+        top.i = m(inp=top.a, out=top.b, vdd=top.c, k=top.kk)
+        return top
+    yield ("params/redeclared-ports", redeclared)
     from vlsirtools import SpiceType
     for st in SpiceType:
         def b(st=st):
